@@ -629,7 +629,21 @@ func (ec *evalCtx) call(x *ast.CallExpr) (T, types.Type, error) {
 		}
 		sub := *ec
 		sub.now = ec.old
-		return sub.eval(x.Args[0])
+		n0 := len(ec.old.assumes)
+		r, rt, err := sub.eval(x.Args[0])
+		// well-formedness facts discovered while reading the old state
+		// are facts of the current path too
+		if ec.old != ec.now && len(ec.old.assumes) > n0 {
+			for i := n0; i < len(ec.old.assumes); i++ {
+				ec.now.assumes = append(ec.now.assumes, ec.old.assumes[i])
+				ec.now.conds = append(ec.now.conds, false)
+			}
+			ec.old.assumes = ec.old.assumes[:n0]
+			if len(ec.old.conds) > n0 {
+				ec.old.conds = ec.old.conds[:n0]
+			}
+		}
+		return r, rt, err
 	case "len", "cap":
 		if err := argN(1); err != nil {
 			return T{}, nil, err
